@@ -273,7 +273,7 @@ def count_lines(path):
     return n
 
 
-def trace_validate(module, cfg, trace_path, timeout=900, extra_env=None, heap='6g', dfs=False, silent_steps=False):
+def trace_validate(module, cfg, trace_path, timeout=900, extra_env=None, heap='6g', dfs=False, silent_steps=False, header_lines=0):
     """Trace validation. Every trace action consumes exactly one line (l' = l + 1), so the depth of the
     explored graph is 1 + the longest prefix the specification explains: accepted <=> depth = lines + 1 and
     no invariant was violated on the way. With silent_steps the cfg must carry INVARIANT NotAccepted and
@@ -296,11 +296,11 @@ def trace_validate(module, cfg, trace_path, timeout=900, extra_env=None, heap='6
         raise Broken('TLC failed on %s: %s' % (module, r.error))
     if r.violated:
         out['violated'] = r.violated
-        out['prefix'] = max(0, len(r.trace) - 1)
+        out['prefix'] = max(0, len(r.trace) - 2 + header_lines)   # 0-based index of the line whose consumption broke the invariant
         return out
-    if r.depth == n + 1:
+    if r.depth == n + 1 - header_lines:
         out['accepted'] = True
-    out['prefix'] = max(0, r.depth - 1)
+    out['prefix'] = max(0, r.depth - 1 + header_lines)
     return out
 
 
